@@ -35,6 +35,12 @@ def one_case(case):
     if res.status == "exc":
         return [sweeps.crash_violation(case, res, "full-data")], info
     inv = res.value
+    try:
+        if sum(len(inv.node_history(x)[0]) for x in labels) > 4000:
+            info["status"] = "too-long"       # oracle cost is quadratic in the history length
+            return [], info
+    except Exception:
+        pass
     v = [V(cls, "%s/%s" % (case["sim"], suffix), msg, case) for cls, suffix, msg in history.causality(case, inv, G, labels)]
     try:
         tr = list(inv.transmissions())
